@@ -21,7 +21,8 @@ os.chdir('/verif')
 EXTRA = {"C08-m1": ["C11", "C18"], "C11-m2": ["C08", "C18"], "C18-m2": ["C11", "C08"], "C01-m2": ["C05"], "C03-m1": ["C04"],
          "C03-m2": ["C13"], "C10-m1": ["C17"], "C01-m3": ["C04"], "C01-m4": ["C06"], "C11-m4": ["C12", "C14"], "C12-m4": ["C14"],
          "C12-m3": ["C11"], "C05-m4": ["C04"], "C01-m6": ["C06", "C08"], "C10-m6": ["C13"], "C14-m6": ["C19"], "C06-m5": ["C11"], "C03-m5": ["C13"],
-         "C11-m6": ["C12"], "C01-m8": ["C03", "C04"], "C01-m7": ["C04"], "C10-m7": ["C14"]}
+         "C11-m6": ["C12"], "C01-m8": ["C03", "C04"], "C01-m7": ["C04"], "C10-m7": ["C14"],
+         "C01-m9": ["C11", "C18"], "C01-m10": ["C11", "C12", "C18"], "C05-m10": ["C04"], "C16-m9": ["C13", "C10"]}
 
 
 def sh(cmd, **kw):
